@@ -124,10 +124,17 @@ class LCDDocFilter(DocumentFilter):
 
     style_filter = SupportedStylePropertiesFilter(supported_styles)
 
-    style_filter.process_initial_values(doc)
+    # tts:position is meaningful on regions only, where it is turned into an origin below: it is removed elsewhere,
+    # in particular from initial values, where it would override the origin that is assigned to all regions
+
+    content_style_filter = SupportedStylePropertiesFilter(
+      {prop: values for prop, values in supported_styles.items() if prop is not StyleProperties.Position}
+    )
+
+    content_style_filter.process_initial_values(doc)
 
     if doc.get_body() is not None:
-      style_filter.process_element(doc.get_body())
+      content_style_filter.process_element(doc.get_body())
 
     # clean-up animations
 
